@@ -144,10 +144,10 @@ A(M("c17e-r5-print-star-lines-silent", "C17", CF, ATOM_PRINT, "                p
 A(M("c17e-r5-print-star-lines-unsorted", "C17", CF, ATOM_PRINT, "                print(\n                    *(\n                        f\"        Clashes found between atoms {ai.name} and {aj.name} with occupancy sum of {occupancy}\"\n                        for ai, aj, occupancy in clashing_chains[(ci, cj)][(ri, rj)]\n                    ),\n                    sep=\"\\n\",\n                )", "report-loops", **R5))
 A(M("c17e-r5-stdout-write-silent", "C17", CF, kind="silent", edits=[(ATOM_PRINT, "                for ai, aj, occupancy in sorted(clashing_chains[(ci, cj)][(ri, rj)]):\n                    sys.stdout.write(\n                        f\"        Clashes found between atoms {ai.name} and {aj.name} with occupancy sum of {occupancy}\\n\"\n                    )"), ("import os\n", "import os\nimport sys\n")], **R5))
 A(M("c17e-r5-stdout-write-first-only", "C17", CF, rule="report-clashes", edits=[(ATOM_PRINT, "                for ai, aj, occupancy in sorted(clashing_chains[(ci, cj)][(ri, rj)])[:1]:\n                    sys.stdout.write(\n                        f\"        Clashes found between atoms {ai.name} and {aj.name} with occupancy sum of {occupancy}\\n\"\n                    )"), ("import os\n", "import os\nimport sys\n")], **R5))
-CSV_ROW = ("                            writer.writerow(\n                                [\n                                    f\"{os.path.splitext(os.path.basename(args.input))[0]}\",\n                                    metadata[\"exptl\"][0][\"method\"],\n                                    metadata[\"refine\"][0][\"ls_d_res_high\"],\n                                    f\"{ri} {ai.name}\",\n                                    f\"{rj} {aj.name}\",\n                                    occupancy,\n                                    classify_clash(ai, aj, occupancy),\n                                ]\n                            )")
+CSV_ROW = ("                            writer.writerow(\n                                [\n                                    f\"{os.path.splitext(os.path.basename(args.input))[0]}\",\n                                    metadata_value(metadata, \"exptl\", \"method\"),\n                                    metadata_value(metadata, \"refine\", \"ls_d_res_high\"),\n                                    f\"{ri} {ai.name}\",\n                                    f\"{rj} {aj.name}\",\n                                    occupancy,\n                                    classify_clash(ai, aj, occupancy),\n                                ]\n                            )")
 CSV_HEAD = "                writer = csv.writer(f)\n                writer.writerow(\n                    [\n                        \"Filename\",\n                        \"Experimental method\",\n                        \"Resolution\",\n                        \"Atom 1\",\n                        \"Atom 2\",\n                        \"Occupancy sum\",\n                        \"Classification\",\n                    ]\n                )\n"
 DICT_HEAD = "                fields = [\"Filename\", \"Experimental method\", \"Resolution\", \"Atom 1\", \"Atom 2\", \"Occupancy sum\", \"Classification\"]\n                writer = csv.DictWriter(f, fieldnames=fields)\n                writer.writeheader()\n"
-DICT_ROW = "                            writer.writerow(\n                                {\n                                    \"Filename\": Path(args.input).stem,\n                                    \"Experimental method\": metadata[\"exptl\"][0][\"method\"],\n                                    \"Resolution\": metadata[\"refine\"][0][\"ls_d_res_high\"],\n                                    \"Atom 1\": f\"{ri} {ai.name}\",\n                                    \"Atom 2\": f\"{rj} {aj.name}\",\n                                    \"Occupancy sum\": occupancy,\n                                    \"Classification\": classify_clash(ai, aj, occupancy),\n                                }\n                            )"
+DICT_ROW = "                            writer.writerow(\n                                {\n                                    \"Filename\": Path(args.input).stem,\n                                    \"Experimental method\": metadata_value(metadata, \"exptl\", \"method\"),\n                                    \"Resolution\": metadata_value(metadata, \"refine\", \"ls_d_res_high\"),\n                                    \"Atom 1\": f\"{ri} {ai.name}\",\n                                    \"Atom 2\": f\"{rj} {aj.name}\",\n                                    \"Occupancy sum\": occupancy,\n                                    \"Classification\": classify_clash(ai, aj, occupancy),\n                                }\n                            )"
 PATH_IMPORT = ("import os\n", "import os\nfrom pathlib import Path\n")
 A(M("c17e-r5-dictwriter-path-silent", "C17", CF, kind="silent", edits=[(CSV_HEAD, DICT_HEAD), (CSV_ROW, DICT_ROW), PATH_IMPORT], **R5))
 A(M("c17e-r5-dictwriter-atoms-crossed", "C17", CF, rule="report-grouping", edits=[(CSV_HEAD, DICT_HEAD), (CSV_ROW, DICT_ROW.replace("\"Atom 1\": f\"{ri} {ai.name}\"", "\"Atom 1\": f\"{ri} {aj.name}\"").replace("\"Atom 2\": f\"{rj} {aj.name}\"", "\"Atom 2\": f\"{rj} {ai.name}\"")), PATH_IMPORT], **R5))
